@@ -279,7 +279,13 @@ def generate(rng, seed, size):
             vals = rng.sample(range(0, 200), len(variants))
             discr = vals
             out.append("#[repr(u8)]\n")
+        if not robust:
+            for l in noise.enum_noise(rng):
+                out.append(l + "\n")
         out.append("#[derive(strum::Display, Debug)]\n")
+        if not robust:
+            for l in noise.enum_strum_noise(rng):
+                out.append(l + "\n")
         if prefix is not None:
             out.append("#[strum(prefix = %s)]\n" % rs(prefix))
         if style is not None:
@@ -289,7 +295,7 @@ def generate(rng, seed, size):
             lines = (["#[strum(disabled)]"] if v["disabled"] else []) + list(v["attrs"])
             if not robust:
                 lines = noise.fold_disabled(rng, lines)
-                lines = noise.place(rng, lines, noise.variant_noise(rng, 0.25, False))
+                lines = noise.trailing_commas(rng, noise.place(rng, lines, noise.variant_noise(rng, 0.25, False)))
             for a in lines:
                 out.append("    %s\n" % a)
             dsuf = "" if discr is None else " = %d" % discr[variants.index(v)]
